@@ -784,6 +784,61 @@ def site_retire_expired(fns):
     return ob.result(it)
 
 
+# ============================================================================ C17: explicit panic sites in MIR
+def panic_free(fns, f, oid, doc, bounds, pre=None, inline=(), loop_bound=1, max_paths=6000, witness=None):
+    """every overflow/bounds `assert` terminator, every slice-indexing call and every fixed-size array
+    conversion in the function's MIR is safe on every path, for arbitrary (havocked) bytes read from the buffer."""
+    ob = Ob(oid, doc, bounds, f)
+    inl = {}
+    for name in inline:
+        inl[name] = mir.find(fns, name, None)
+    it = Interp(f, loop_bound=loop_bound, pure=PURE, inline=inl, slices=True, max_paths=max_paths)
+    seen = set()
+
+    def init(it_, st):
+        if pre:
+            pre(it_, st)
+    for p in it.run(init):
+        ob.paths += 1
+        if p.status == "truncated":
+            ob.truncated += 1
+        for e in p.events:
+            key = (e.kind, e.callee, tuple(str(a)[:80] for a in e.args), len(e.pc))
+            if e.kind == "assert":
+                if key in seen:
+                    continue
+                seen.add(key)
+                ob.need(it, e.pc, e.args[0], "no panic: " + e.callee[:70])
+            elif e.kind == "slice":
+                if key in seen:
+                    continue
+                seen.add(key)
+                base, start, end, blen = e.args
+                ob.need(it, e.pc, z3.And(z3.ULE(start, end), z3.ULE(end, blen)), "slice %s in bounds" % e.callee)
+            elif e.kind == "unwrap_array":
+                if key in seen:
+                    continue
+                seen.add(key)
+                d = it.ctx.disc(it.as_u(e.args[0]))
+                ob.need(it, e.pc, d == 0, "conversion to [u8; %s] cannot fail" % e.callee)
+    return ob.result(it, witness=witness)
+
+
+def c17(fns, tier, env):
+    slot = 3 * 4096
+
+    def pre_slot(it, st):
+        d = z3.Const("data", U)
+        st["env"]["_1"] = d
+        st["pc"].append(it.len_of(d) == z3.BitVecVal(slot, 64))
+    out = [panic_free(fns, mir.find(fns, "::decode_slot", None), "c17_decode_slot_panic_free",
+                      "allocation_journal::decode_slot on ANY slot contents (every value parsed out of the buffer is havocked): no arithmetic-overflow panic, "
+                      "no out-of-range slice of the slot (incl. the checksum image `data[..checksum_len]`), no failing fixed-size conversion, no out-of-bounds pair access",
+                      "slot length = 3 blocks (the caller's contract); one arbitrary iteration of each loop (for index in 0..count with 0 <= index < count)",
+                      pre=pre_slot, inline=("::journal_image_size",), witness="c17_journal_forged_count")]
+    return finalize(out, env)
+
+
 # ============================================================================ common tail
 def finalize(obls, env):
     """candidates -> native witness runs"""
